@@ -940,6 +940,19 @@ pub fn make(profile: &str, seed: u64, index: u64) -> (Params, Extras) {
         ),
         other => panic!("unknown profile {other}"),
     };
+    let mut p = p;
+    if matches!(profile, "C01" | "C02" | "C03" | "C12" | "smoke") {
+        // stream-centric profiles exercise every read/write interface of the stream API
+        let mut r = Rng::new(vq_util::mix(vq_util::mix(seed, 0xa91), index));
+        for c in p.clients.iter_mut() {
+            for s in c.streams.iter_mut().chain(c.server_streams.iter_mut()) {
+                crate::params::diversify_api(&mut r, &mut s.fwd);
+                if let Some(rv) = s.rev.as_mut() {
+                    crate::params::diversify_api(&mut r, rv);
+                }
+            }
+        }
+    }
     (p, ex)
 }
 
